@@ -8,6 +8,20 @@ BASELINE = ("cd /repo && env -u OTEL2PUML_VERIF /venv/bin/python -m pytest -ra -
 
 # id -> (category, technique, level text, level note, design ref)
 TABLE = {
+    "C09": ("proof",
+            "Coq theorems (canonical tree digest <-> isomorphism up to sibling order, paging independence, one representative per class) with the digest function as a Section hypothesis; in-kernel differential correspondence against find_unique_graphs",
+            "Universal Coq theorems about a Gallina model of find_unique_graphs (candidate roots, root paging, per-batch child maps, "
+            "recursive sorted-children digest, GROUP BY selection): digests are equal iff the call trees are isomorphic up to sibling "
+            "order (for any digest function satisfying the stated injectivity hypothesis; unconditionally for the canonical-tree "
+            "digest used in the executable model), the rows computed are independent of the batch size, for every workflow name the "
+            "selection hits every shape class exactly once for ANY representative SQL may pick, and the classes represented do not "
+            "depend on ingestion order. Tied to /repo on every run by running the real find_unique_graphs on SQLite stores "
+            "(exhaustive small tree pairs + random multisets, batch sizes, ingestion orders) and comparing with the model in coqc as "
+            "sets of (name, shape class).",
+            "Trusted: Coq kernel+vm_compute; hypothesis X_inj (xxhash64 collision-free and concatenation unambiguous - the latter is "
+            "false for adversarial type names, listed as a known finding); stores are forests of single-rooted traces with unique ids; "
+            "SQLite paging/GROUP BY as modelled (tied by correspondence); harness.",
+            "4/C09"),
     "C11": ("proof",
             "Coq theorems about relational models of the three cleaning statements and their composition with streaming; in-kernel differential correspondence against SQLite; counterfactual runs",
             "Universal Coq theorems for every store and window about Gallina models of remove_inconsistent_jobs, "
@@ -68,7 +82,7 @@ TABLE = {
 }
 
 # properties whose check is finished and quiet on the unchanged tree
-READY = {"C08", "C10", "C11", "C12", "C16"}
+READY = {"C08", "C09", "C10", "C11", "C12", "C16"}
 
 NOT_YET = {
 }
